@@ -176,7 +176,7 @@ class CFG:
                 b = self._block(st.orelse, {t.id}, ctx)
             else:
                 # an explicit node for the empty else branch, so that "the test was false" is a node a path passes through
-                j = self._new("join", None, label="if-false")
+                j = self._new("join", st, label="if-false")
                 self._edge(t.id, j.id, "n")
                 b = {j.id}
             self.if_false[t.id] = {y for y, k in self.succ[t.id] if k == "n"} - mid
